@@ -4,7 +4,6 @@ import (
 	"fmt"
 	"os"
 
-	"cuelang.org/go/cue"
 	"cuelang.org/go/cue/cuecontext"
 )
 
@@ -12,7 +11,9 @@ func main() {
 	ctx := cuecontext.New()
 	for _, src := range os.Args[1:] {
 		v := ctx.CompileString(src)
-		o := v.LookupPath(cue.ParsePath("out"))
-		fmt.Printf("== %s\n  Err=%v\n  Validate=%v\n  Concrete=%v\n  Final=%v\n", src, o.Err(), o.Validate(), o.Validate(cue.Concrete(true)), o.Validate(cue.Final()))
+		var x any
+		err := v.Decode(&x)
+		i, ierr := v.Int64()
+		fmt.Printf("== %s\n  Decode=%T %v err=%v  Int64=%v err=%v\n", src, x, x, err, i, ierr)
 	}
 }
